@@ -56,7 +56,7 @@ def reserved_names():
 
 
 STEMS = ["alp", "bet", "gam", "del", "kap", "lam", "muo", "nuo", "omi", "rho", "sig", "tau", "ups", "phy", "chy", "psy", "ome", "zet",
-         "eta", "iot", "vex", "wix", "yon", "qua", "jor", "hux"]
+         "eta", "iot", "vex", "wix", "yon", "qua", "jor", "hux", "atrue", "falsey"]
 
 
 # ------------------------------------------------------------------ entities and scopes
@@ -1188,6 +1188,8 @@ class Layout:
     split_pos: int = 0  # 0: break a statement in the middle; k > 0: after its (1 + (k-1) mod (n-1))-th piece, e.g. right after the keyword
     amp_tight: bool = False  # with lead_amp: the text follows the leading '&' directly ('&name' instead of '& name')
     cont_col1: bool = False  # without lead_amp: the continuation line starts in column 1
+    cont_blank: str = None  # a line of this text ("" or blanks only) between the lines of a continued statement
+    fixed_tight: bool = False  # fixed form: break between two words, no blank before the break nor after the continuation mark
     join_every: int = 0  # join every n-th pair of simple statements with ';'
     space_end: str = " "  # 'end subroutine' vs 'endsubroutine' (only for constructs that allow it)
     fixed: bool = False
@@ -1203,7 +1205,7 @@ layout_st = st.builds(
     Layout,
     indent=st.sampled_from([0, 1, 2, 4, 8]),
     kwcase=st.sampled_from(["lower", "upper", "title"]),
-    idcase=st.sampled_from(["asis", "asis", "upper", "lower"]),
+    idcase=st.sampled_from(["asis", "asis", "upper", "lower", "mixed"]),
     eol=st.sampled_from(["\n", "\n", "\r\n", "\r"]),
     trailing_blanks=st.booleans(),
     blank_every=st.sampled_from([0, 0, 2, 3, 5]),
@@ -1216,6 +1218,8 @@ layout_st = st.builds(
     label_every=st.sampled_from([0, 0, 0, 2, 3, 5]),
     labelled_do=st.sampled_from([False, False, True]),
     cont_col1=st.booleans(),
+    cont_blank=st.sampled_from([None, None, "", "   ", " "]),
+    fixed_tight=st.booleans(),
     join_every=st.sampled_from([0, 0, 2, 3]),
     space_end=st.sampled_from([" ", " ", "  "]),
     end_style=st.sampled_from(["full", "full", "kw", "bare", "joined"]),
@@ -1271,11 +1275,21 @@ def _case_kw(text, layout):
     return "".join(res)
 
 
+_MIX = [0]
+
+
 def _case_id(text, layout):
+    if layout.idcase == "mixed":
+        # every occurrence in another spelling: Fortran names are case-insensitive everywhere (declarations, USE ONLY and
+        # rename lists, PUBLIC / PRIVATE statements, calls, END statements)
+        _MIX[0] += 1
+        k = _MIX[0] % 3
+        return text.upper() if k == 0 else (text.lower() if k == 1 else text.capitalize())
     return text.upper() if layout.idcase == "upper" else (text.lower() if layout.idcase == "lower" else text)
 
 
 def render_fixed(prog: Program, layout: Layout) -> Rendered:
+    _MIX[0] = 0
     """Fixed source form: statement field from column 7, continuation mark in column 6, comment lines
     flagged in column 1, numeric labels in columns 1-5, labelled DO ... <label> CONTINUE (shared
     terminal labels for directly nested loops), lines at most 72 characters."""
@@ -1340,8 +1354,15 @@ def render_fixed(prog: Program, layout: Layout) -> Rendered:
             cur += ind
             first_line = len(lines)
             was_split = False
-            for txt, ref in pieces:
-                if len(cur) + len(txt) > (66 if not layout.split_every else 30 + 8 * layout.split_every) and len(cur) > 12 + len(ind):
+            for pi, (txt, ref) in enumerate(pieces):
+                if (layout.fixed_tight and pi == 1 and ref is not None and pieces[0][1] is None and pieces[0][0].endswith(" ")
+                        and pieces[0][0].rstrip()[-1:].isalpha() and nst % 2 == 0):
+                    # 'subroutine' | 'name(': no blank before the break, the text right after the continuation mark (blanks are
+                    # insignificant in fixed form, the two words still are two tokens)
+                    lines.append(cur.rstrip())
+                    cur = "     " + layout.cont_char
+                    was_split = True
+                elif len(cur) + len(txt) > (66 if not layout.split_every else 30 + 8 * layout.split_every) and len(cur) > 12 + len(ind):
                     lines.append(cur)
                     cur = "     " + layout.cont_char + ind + "  "
                     was_split = True
@@ -1375,6 +1396,7 @@ def render_fixed(prog: Program, layout: Layout) -> Rendered:
 def render(prog: Program, layout: Layout = PLAIN, suffix=None) -> Rendered:
     if layout.fixed:
         return render_fixed(prog, layout)
+    _MIX[0] = 0
     files, flines, occs, stmt_lines = {}, {}, [], {}
     for f in prog.files:
         name = f.name if suffix is None else os.path.splitext(f.name)[0] + suffix
@@ -1449,6 +1471,8 @@ def render(prog: Program, layout: Layout = PLAIN, suffix=None) -> Rendered:
                 lines.append(cur)
                 if layout.comment_every and nsplit % 2 == 0:
                     lines.append(ind + "  ! comment between continuation lines")
+                elif layout.cont_blank is not None:
+                    lines.append(layout.cont_blank)
                 if layout.lead_amp:
                     cur = ind + "    " + ("&" if layout.amp_tight else "& ")
                 else:
